@@ -571,7 +571,7 @@ def layout(rng, items, style='random', final_newline=None, header=None):
             nl_ok = not it.no_nl_before
             if need_nl:
                 opts = [b'\n', b'\n', b' \n', b'\n\n', b' -- ' + rng.choice(COMMENT_WORDS).replace(b'\n', b' ') + b'\n',
-                        b'\r\n', b' // c\n', b'\n  '] + OWN_LINE_COMMENTS
+                        b'\r\n', b' // c\n', b'\n  ', b'\r', b'\n\r'] + OWN_LINE_COMMENTS       # (a lone CR is a line end too)
                 sep = rng.choice(opts) if style != 'compact' else b'\n'
             elif style == 'compact':
                 sep = b' ' if sep_needed else b''
@@ -602,7 +602,7 @@ def layout(rng, items, style='random', final_newline=None, header=None):
                     opts += [b'', b'', b'']
                 if nl_ok:
                     opts += [b'\n', b'\n', b'\n\n', b' \n  ', b' -- ' + rng.choice(COMMENT_WORDS).replace(b'\n', b' ') + b'\n',
-                             b'\r\n', b'// ' + rng.choice(COMMENT_WORDS).replace(b'\n', b' ') + b'\n', b'\t\n'] + OWN_LINE_COMMENTS
+                             b'\r\n', b'// ' + rng.choice(COMMENT_WORDS).replace(b'\n', b' ') + b'\n', b'\t\n', b'\r', b' \r '] + OWN_LINE_COMMENTS
                 sep = rng.choice(opts)
                 if sep.startswith(b'--') and prev.text.endswith(b'-'):
                     sep = b' ' + sep
